@@ -420,6 +420,9 @@ class Counter(LogicBlock):
         if evaluated_value is None:
             self.log.warning("Placeholder %s for counter add did not evaluate with args %s", value, kwargs)
             return
+        if not self._state:
+            # block belongs to a mode which is not running
+            return
         # Add to the counter the specified value
         self.value += evaluated_value
         self.post_update_event()
@@ -439,6 +442,9 @@ class Counter(LogicBlock):
         if evaluated_value is None:
             self.log.warning("Placeholder %s for counter substract did not evaluate with args %s", value, kwargs)
             return
+        if not self._state:
+            # block belongs to a mode which is not running
+            return
         # Subtract from the counter the specified value
         self.value -= evaluated_value
         self.post_update_event()
@@ -457,6 +463,9 @@ class Counter(LogicBlock):
         evaluated_value = value.evaluate_or_none(kwargs)
         if evaluated_value is None:
             self.log.warning("Placeholder %s for counter jump did not evaluate with args %s", value, kwargs)
+            return
+        if not self._state:
+            # block belongs to a mode which is not running
             return
         # Set the internal value of the counter to the specified value
         self.value = evaluated_value
